@@ -153,3 +153,19 @@ func gaugeEpochPartitionRules(c *rules.Ctx) {
 	c.OnlyWhen(H, "append", "not(lockuptypes.IsSyntheticDenom({IG}.DistributeTo.Denom)) | not({IG}.IsPerpetual)", "the incentives hook leaves out exactly the perpetual gauges on a synthetic denom")
 	c.CallArg(SF, "superfluidtypes.IncentivesKeeper.Distribute", 2, "phi(list(), append(#self, list({SG})))", "the list distributed is the filtered list")
 }
+
+// mintStoreRules (C18): the two pieces of schedule state — the minter and the last-reduction epoch — are written and
+// read under the same key with the same encoding, and the mint helper mints exactly the coins it was given into the
+// mint module account.
+func mintStoreRules(c *rules.Ctx) {
+	const K = "x/mint/keeper.Keeper."
+	c.HasCall(K+"mintCoins", "minttypes.BankKeeper.MintCoins", []string{"k.bankKeeper", "ctx", "\"mint\"", "newCoins"}, false, "the epoch's coins are minted unchanged into the mint module account", "")
+	c.Returns(K+"mintCoins", 0, "phi(nil, minttypes.BankKeeper.MintCoins(k.bankKeeper,ctx,\"mint\",newCoins)) | nil | minttypes.BankKeeper.MintCoins(k.bankKeeper,ctx,\"mint\",newCoins)", "a failed mint fails the epoch step", "")
+	c.CallArg(K+"setLastReductionEpochNum", "storetypes.KVStore.Set", 1, "@minttypes.LastReductionEpochKey", "the last-reduction epoch is written under its key")
+	c.CallArg(K+"setLastReductionEpochNum", "storetypes.KVStore.Set", 2, "sdk.Uint64ToBigEndian(epochNum)", "…big-endian")
+	c.CallArg(K+"getLastReductionEpochNum", "storetypes.KVStore.Get", 1, "@minttypes.LastReductionEpochKey", "…and read from the same key")
+	c.Returns(K+"getLastReductionEpochNum", 0, "0 | sdk.BigEndianToUint64(storetypes.KVStore.Get(_, @minttypes.LastReductionEpochKey))", "…with the same encoding (0 when never set)", "")
+	c.CallArg(K+"SetMinter", "osmoutils.MustSet", 1, "@minttypes.MinterKey", "the minter is written under the minter key")
+	c.CallArg(K+"SetMinter", "osmoutils.MustSet", 2, "minter", "…as given")
+	c.CallArg(K+"GetMinter", "osmoutils.MustGet", 1, "@minttypes.MinterKey", "…and read from the same key")
+}
